@@ -653,7 +653,32 @@ class Interp:
         return tuple(out)
 
     def e_List(self, n, env):
-        return list(self.e_Tuple(n, env))
+        from . import values
+        parts, symbolic = [], False
+        for e in n.elts:
+            if isinstance(e, ast.Starred):
+                v = self.eval(e.value, env)
+                if isinstance(v, values.SList):
+                    symbolic = True
+                    parts.append(('seq', v))
+                else:
+                    parts.append(('seq', list(self.concrete_iter(v))))
+            else:
+                parts.append(('one', self.eval(e, env)))
+        if not symbolic:
+            out = []
+            for k, v in parts:
+                out.extend(v) if k == 'seq' else out.append(v)
+            return out
+        segs = []
+        for k, v in parts:
+            if k == 'one':
+                segs.append(values.ElemSeg([v]))
+            elif isinstance(v, values.SList):
+                segs.extend(v.segs)
+            elif v:
+                segs.append(values.ElemSeg(list(v)))
+        return values.SList(segs)
 
     def e_Set(self, n, env):
         return set(self.e_Tuple(n, env))
